@@ -683,6 +683,29 @@ def direct_compounds(els):
         if not (close(1 - n_.real, 1 - want.real, 0.0, rel=1e-5) and close(n_.imag, want.imag, 0.0, rel=1e-5)):
             fail("C05:refraction-formula", "index_of_refraction(%r, density=%r, energy=%r) = %r; 1 - lambda^2/(2 pi) (rho + i irho) 1e-6 = %r"
                  % (seq, rho, x, n_, want), input=dict(compound=repr(seq), density=rho, energy=x))
+        # the same through natural_density=: the refraction index of the labelled compound is that of its natural
+        # twin at the same natural density, and follows the formula on the SLD of that call
+        if not bad:
+            na = attempt(xsf.index_of_refraction, seq, natural_density=rho, energy=x)
+            nb = attempt(xsf.index_of_refraction, nat, natural_density=rho, energy=x)
+            want = 1 - lam ** 2 / (2 * math.pi) * complex(float(ra[0]), float(ra[1])) * 1e-6
+            ok = not isinstance(na, Exception) and not isinstance(nb, Exception)
+            if ok:
+                na, nb = complex(np.asarray(na).reshape(-1)[0]), complex(np.asarray(nb).reshape(-1)[0])
+                ok = close(1 - na.real, 1 - nb.real, 0.0, rel=1e-9) and close(na.imag, nb.imag, 0.0, rel=1e-9) and \
+                    close(1 - na.real, 1 - want.real, 0.0, rel=1e-5) and close(na.imag, want.imag, 0.0, rel=1e-5)
+            if not ok:
+                fail("C05:refraction-natural-density", "index_of_refraction(%r, natural_density=%r, energy=%r) = %r; with the natural "
+                     "elements %r it is %r; 1 - lambda^2/(2 pi) (rho + i irho) 1e-6 on xray_sld of the same call = %r"
+                     % (seq, rho, x, na, nat, nb, want), input=dict(compound=repr(seq), natural=repr(nat), natural_density=rho, energy=x))
+            for ang in (0.1, 0.4):
+                ma = attempt(xsf.mirror_reflectivity, seq, natural_density=rho, energy=x, angle=ang)
+                mb = attempt(xsf.mirror_reflectivity, nat, natural_density=rho, energy=x, angle=ang)
+                one = lambda v: float(np.asarray(v).reshape(-1)[0])
+                if isinstance(ma, Exception) or isinstance(mb, Exception) or not close(one(ma), one(mb), 0.0, rel=1e-8):
+                    fail("C05:reflectivity-natural-density", "mirror_reflectivity(%r, natural_density=%r, energy=%r, angle=%r) = %r; with the "
+                         "natural elements %r it is %r" % (seq, rho, x, ang, ma, nat, mb),
+                         input=dict(compound=repr(seq), natural=repr(nat), natural_density=rho, energy=x, angle=ang))
 
 
 def direct_isotope_ion_witness():
@@ -731,6 +754,13 @@ def direct_f0():
             if isinstance(v, Exception) or not math.isnan(float(v)):
                 fail("C05:f0-beyond-range:%s" % sym, "%r.xray.f0(%r) = %r beyond Q = 24 pi; NaN expected" % (atom, q, v),
                      input=dict(atom=repr(atom), Q=q))
+        # the end of the fitted range itself (Q = 24 pi, i.e. sin(theta)/lambda = 6) still belongs to it
+        for q in (q24, 40.0):
+            wq = sum(ai * math.exp(-bi * (q / (4 * math.pi)) ** 2) for ai, bi in zip(a, b)) + c
+            v = attempt(atom.xray.f0, q)
+            if isinstance(v, Exception) or math.isnan(float(v)) or not close(float(v), wq, sum(abs(t) for t in a) + abs(c), rel=1e-9):
+                fail("C05:f0-inside-range:%s" % sym, "%r.xray.f0(%r) = %r; sum a_i exp(-b_i (Q/4pi)^2) + c from the data line = %r "
+                     "(Q within [0, 24 pi])" % (atom, q, v, wq), input=dict(atom=repr(atom), Q=q))
         v = attempt(atom.xray.f0, q24 * 0.9999)
         if isinstance(v, Exception) or math.isnan(float(v)):
             fail("C05:f0-inside-range:%s" % sym, "%r.xray.f0(%r) = %r inside the fitted range" % (atom, q24 * 0.9999, v),
